@@ -25,7 +25,63 @@ OUT = re.compile(r"rustybgpd::fsm::Output")
 CONN = "rustybgpd::fsm::Connection::"
 
 
+_PATHS = {}
+ALL_STATES = {"Idle", "Connect", "Active", "OpenSent", "OpenConfirm", "Established"}
+
+
+def _state_atom(g, labels):
+    """Set of states a branch outcome allows, or None if the branch does not test self.state."""
+    ALL = ALL_STATES
+    if g[0] == "discr" and g[2] and g[2].endswith("fsm::State") and "state" in expr_fields(g):
+        if "else" in labels:
+            return None
+        return set(labels) & ALL
+    if g[0] == "call" and re.search(r"PartialEq(>)?::(eq|ne)$", g[1]) and "fsm::State" in g[5] and "state" in expr_fields(g):
+        c = [x[3] for x in walk(g) if isinstance(x, tuple) and x and x[0] == "const" and x[3] in ALL]
+        c += [x[2] for x in walk(g) if isinstance(x, tuple) and x and x[0] == "agg" and x[2] in ALL]
+        if len(c) == 1 and len(labels) == 1 and set(labels) <= {"true", "false"}:
+            is_eq = g[1].endswith("::eq")
+            holds = set(labels) == {"true"}
+            return {c[0]} if is_eq == holds else ALL - {c[0]}
+    return None
+
+
 def state_conds(fv, bi, brs=None):
+    """Allowed values of self.state on entry to block bi: the union, over the entry->return paths through bi (bool flags such
+    as `let active = matches!(self.state, ..)` are followed as constants), of the states the tests before bi leave possible.
+    Independent of whether the handler is written as a match, as guard clauses or with a hoisted flag.  Falls back to the
+    dominating guards when the function has too many paths."""
+    from ..paths import enumerate_paths, PathLimit
+    if fv.key not in _PATHS:
+        try:
+            _PATHS[fv.key] = enumerate_paths(fv, Renderer(fv), max_paths=4000)
+        except PathLimit:
+            _PATHS[fv.key] = None
+    paths = _PATHS[fv.key]
+    if paths is None:
+        return _state_conds_guards(fv, bi, brs)
+    out = set()
+    hit = False
+    for conds, blocks, env in paths:
+        if bi not in blocks:
+            continue
+        hit = True
+        pos = blocks.index(bi)
+        before = set(blocks[:pos])
+        allowed = set(ALL_STATES)
+        for br, labels in conds:
+            if br.bi not in before:
+                continue
+            s_ = _state_atom(br.expr, labels)
+            if s_ is not None:
+                allowed &= s_
+        out |= allowed
+    if not hit:
+        return _state_conds_guards(fv, bi, brs)
+    return None if out == ALL_STATES else out
+
+
+def _state_conds_guards(fv, bi, brs=None):
     """Allowed values of self.state on entry to block bi, from necessary guards: returns set of variant names or None (=any)."""
     allowed = None
     ALL = {"Idle", "Connect", "Active", "OpenSent", "OpenConfirm", "Established"}
@@ -223,33 +279,14 @@ def check_slot_release(prog, r):
     prelude = None
     for b in closes + idles:
         gs = [(g, l) for g, l, h in flat_guards(fv, b, brs)]
-        sd = [(g, l) for g, l in gs if g[0] == "var" and g[1] == "session_down"]
-        other = [(g, l) for g, l in gs if not (g[0] == "var" and g[1] == "session_down")]
+        sd = [(g, l) for g, l in gs if _is_flag(prog, fv, g, {"SessionDown"})]
+        other = [(g, l) for g, l in gs if not _is_flag(prog, fv, g, {"SessionDown"})]
         # the prelude guards are: input is not Connected, the slot exists
         extra = [show(g, 60) for g, l in other if not _is_prelude(g)]
         if sd and sd[0][1] == {"true"} and not extra:
             r.ok("slot release @%d exactly under session_down" % fv.line(b))
         else:
             r.fail(fv.name, "slot-release-guard", "slot release / Idle report is guarded by %s (want: session_down only)" % ([show(g, 50) + str(sorted(l)) for g, l in gs]), fv.loc(b))
-    # session_down definition: any(outputs, matches SessionDown)
-    ok = False
-    for l, n in fv.local_name.items():
-        if n == "session_down":
-            e = Renderer(fv, depth=12, through_names=True).local(l, 12)
-            if e[0] == "call" and e[1].endswith("Iterator::any"):
-                for x in walk(e):
-                    if isinstance(x, tuple) and x and x[0] == "agg" and x[1] == "closure":
-                        toks = fn_tokens(prog, x[2], depth=0)
-                        cfv = view(prog, x[2])
-                        for bb, br in branches(cfv).items():
-                            if br.expr[0] == "discr" and br.adt and br.adt.endswith("fsm::Output"):
-                                for v, tgt in br.cases:
-                                    if br.label(prog, v) == "SessionDown":
-                                        ok = True
-    if ok:
-        r.ok("session_down = any output is SessionDown")
-    else:
-        r.fail(fv.name, "session_down-def", "session_down is not 'any output is Output::SessionDown'", fv.loc())
     # occupied slot => CloseConnection
     oc = view(prog, prog.one(r"rustybgpd::fsm::PeerFsm::on_connected"))
     r.analysed(oc.name)
@@ -266,8 +303,46 @@ def check_slot_release(prog, r):
         r.fail(oc.name, "occupied-slot", "a second connection of the same role is not rejected with CloseConnection", oc.loc())
 
 
+def flag_meaning(prog, fv, name):
+    """What a bool local stands for, as the set of enum labels its truth depends on: either
+       `let f = xs.iter().any(|o| matches!(o, Output::X(..)))`  -> labels tested by the closure, or
+       `let mut f = false; for o in xs { if let Output::X(..) = o { f = true } }` -> labels guarding the `true` writes."""
+    labs = set()
+    for l, n in fv.local_name.items():
+        if n != name or l >= len(fv.f["locals"]) or fv.f["locals"][l] != "bool":
+            continue
+        ds = [d for d in fv.defs().get(l, []) if d[0] in fv.live]
+        for bi, si, st in ds:
+            if si == "t":
+                if any(nm.endswith("Iterator::any") for nm in callee_names(st)):
+                    e = Renderer(fv, depth=12, through_names=True).call_expr(st, 12, bi)
+                    for x in walk(e):
+                        ck = None
+                        if isinstance(x, tuple) and x and x[0] == "agg" and x[1] == "closure":
+                            ck = x[2]
+                        if ck and ck in prog.ix:
+                            cfv = view(prog, ck)
+                            for bb, br in branches(cfv).items():
+                                if br.expr[0] == "discr":
+                                    for v, tgt in br.cases:
+                                        labs.add(br.label(prog, v))
+                continue
+            rv = st["rv"]
+            if rv["r"] == "use" and (rv["o"].get("k") or {}).get("v") == 1:
+                for g, labels, how in flat_guards(fv, bi):
+                    if g[0] == "discr" and "else" not in labels and len(labels) <= 2:
+                        labs |= set(labels)
+    return labs
+
+
+def _is_flag(prog, fv, g, need):
+    return g[0] == "var" and need <= flag_meaning(prog, fv, g[1])
+
+
 def _is_prelude(g):
     s = show(g, 200)
+    if g[0] == "discr" and any(c.endswith("Iterator::next") for c in expr_calls(g)):
+        return True          # leaving a `for` loop over the outputs: structural, not a condition on the session
     return ("connection_mut" in s) or (g[0] == "discr" and ("input" in expr_vars(g) or "Input" in (g[2] or "")))
 
 
@@ -278,74 +353,116 @@ def check_collision(prog, r):
         r.unanalysable("PeerFsm::process: %d calls of check_collision" % len(cc), fv.loc())
         return
     gs = [(g, l) for g, l, h in flat_guards(fv, cc[0]) if not _is_prelude(g)]
-    if len(gs) == 1 and gs[0][0][0] == "var" and gs[0][0][1] == "entered_open_confirm" and gs[0][1] == {"true"}:
-        r.ok("check_collision runs exactly when a connection entered OpenConfirm")
+    if len(gs) == 1 and _is_flag(prog, fv, gs[0][0], {"StateChanged", "OpenConfirm"}) and gs[0][1] == {"true"}:
+        r.ok("check_collision runs exactly when a connection entered OpenConfirm (flag = some output is StateChanged(OpenConfirm))")
     else:
         r.fail(fv.name, "collision-check-guard", "check_collision is guarded by %s (want: entered_open_confirm only)" % [show(g, 50) + str(sorted(l)) for g, l in gs], fv.loc(cc[0]))
-    # entered_open_confirm = any output is StateChanged(OpenConfirm)
-    ok = False
-    for l, n in fv.local_name.items():
-        if n == "entered_open_confirm":
-            e = Renderer(fv, depth=12, through_names=True).local(l, 12)
-            for x in walk(e):
-                if isinstance(x, tuple) and x and x[0] == "agg" and x[1] == "closure":
-                    cfv = view(prog, x[2])
-                    labs = set()
-                    for bb, br in branches(cfv).items():
-                        if br.expr[0] == "discr":
-                            for v, tgt in br.cases:
-                                labs.add(br.label(prog, v))
-                    if {"StateChanged", "OpenConfirm"} <= labs:
-                        ok = True
-    if ok:
-        r.ok("entered_open_confirm = any output is StateChanged(OpenConfirm)")
-    else:
-        r.fail(fv.name, "entered_open_confirm-def", "entered_open_confirm is not 'any output is StateChanged(OpenConfirm)'", fv.loc())
     # check_collision body
     ck = view(prog, prog.one(r"rustybgpd::fsm::PeerFsm::check_collision"))
     r.analysed(ck.name)
     brs = branches(ck)
     rend = Renderer(ck, depth=14, through_names=True)
-    # (a) returns None (no collision) only when other_state is neither OpenConfirm nor Established (or no other connection)
-    for bi, si, s in ck.aggregates(None, "None"):
-        if s["p"]["l"] != 0 or s.get("x"):
+    # (a)-(c) decision table of check_collision over its entry->return paths.  "Other state" = any fsm::State value the
+    # function branches on (it has no other); the loser is whatever is handed to close_connection and returned in Some.
+    from ..paths import enumerate_paths, PathLimit
+    try:
+        paths = enumerate_paths(ck, Renderer(ck, depth=14), max_paths=4000)
+    except PathLimit:
+        paths = []
+        r.unanalysable("check_collision: too many paths", ck.loc())
+    ALL = ALL_STATES
+    role_name = ck.local_name.get(2)
+
+    def other_atom(g, labels):
+        if g[0] == "discr" and g[2] and g[2].endswith("fsm::State") and "else" not in labels:
+            return set(labels) & ALL
+        if g[0] == "call" and re.search(r"PartialEq(>)?::(eq|ne)$", g[1]) and "fsm::State" in g[5] and len(labels) == 1 and set(labels) <= {"true", "false"}:
+            c = [x[3] for x in walk(g) if isinstance(x, tuple) and x and x[0] == "const" and x[3] in ALL]
+            c += [x[2] for x in walk(g) if isinstance(x, tuple) and x and x[0] == "agg" and x[2] in ALL]
+            if len(c) == 1:
+                return {c[0]} if (g[1].endswith("::eq") == (set(labels) == {"true"})) else ALL - {c[0]}
+        return None
+    close_blocks = {b: t for b, t in ck.calls(re.compile(r"rustybgpd::fsm::PeerFsm::close_connection"))}
+    ret_aggs = {bi: s for bi, si, s in ck.aggregates(None, None) if s["p"]["l"] == 0 and not s["p"].get("p") and s["rv"].get("v") in ("Some", "None")}
+    seen_kinds = set()
+    problems = {}
+    for conds, blocks, env in paths:
+        rb = [b for b in blocks if b in ret_aggs]
+        if not rb:
+            continue          # the `?` on the other connection: FromResidual builds the None
+        kind = ret_aggs[rb[-1]]["rv"]["v"]
+        S = set(ALL)
+        tested = False
+        for br, labels in conds:
+            a = other_atom(br.expr, labels)
+            if a is not None:
+                S &= a
+                tested = True
+        if tested and not S:
+            continue          # contradictory tests: not a feasible path
+        if kind == "None":
+            if tested and (S & {"OpenConfirm", "Established"}):
+                problems.setdefault("none-with-collision", "check_collision can report 'no collision' while the other connection may be in %s" % sorted(S & {"OpenConfirm", "Established"}))
+            elif not tested:
+                problems.setdefault("none-with-collision", "check_collision reports 'no collision' on a path that never looks at the other connection's state")
+            else:
+                seen_kinds.add("none")
             continue
-        sts = _other_state_conds(ck, bi, brs)
-        if sts is not None and not (sts & {"OpenConfirm", "Established"}):
-            r.ok("check_collision: None only when other state in %s" % sorted(sts))
-        else:
-            r.fail(ck.name, "none-with-collision", "check_collision can report 'no collision' while the other connection may be in %s" % (sorted(sts & {"OpenConfirm", "Established"}) if sts else "any state"), ck.loc(bi))
-    # (b) loser
-    losers = []
-    for l, n in ck.local_name.items():
-        if n == "loser":
-            for bi, si, s in ck.defs().get(l, []):
-                e = rend.call_expr(s, 14, bi) if si == "t" else rend.rvalue(s["rv"], 14)
-                losers.append((bi, e, _other_state_conds(ck, bi, brs)))
-    if len(losers) < 2:
-        r.unanalysable("check_collision: definitions of `loser` not found", ck.loc())
-    for bi, e, sts in losers:
-        if sts == {"Established"}:
-            if e[0] == "var" and e[1] == "role":
-                r.ok("other Established => newcomer (role) loses")
+        # Some(loser)
+        if not tested or not S <= {"OpenConfirm", "Established"}:
+            problems.setdefault("collision-without-state", "a collision is reported on a path where the other connection may be in %s" % sorted(S - {"OpenConfirm", "Established"}))
+            continue
+        cb = [b for b in blocks if b in close_blocks]
+        if not cb or blocks.index(cb[-1]) > blocks.index(rb[-1]):
+            problems.setdefault("loser-not-closed", "a collision is reported without closing the loser's slot first")
+            continue
+        # the value closed / returned: last definition on this path of the local handed to close_connection
+        q = close_blocks[cb[-1]]["args"][1].get("c") or close_blocks[cb[-1]]["args"][1].get("m")
+        e = None
+        cur = q["l"] if q is not None and not q.get("p") else None
+        hops = 0
+        while cur is not None and hops < 6:
+            hops += 1
+            ds = [d for d in ck.defs().get(cur, []) if d[0] in blocks]
+            if cur <= ck.f["argc"] and not ds:
+                e = ("var", ck.local_name.get(cur, "arg%d" % cur))
+                break
+            if not ds:
+                break
+            bi2, si2, st2 = max(ds, key=lambda d: blocks.index(d[0]))
+            if si2 != "t" and st2["rv"]["r"] == "use":
+                q2 = st2["rv"]["o"].get("c") or st2["rv"]["o"].get("m")
+                if q2 is not None and not q2.get("p"):
+                    cur = q2["l"]
+                    continue
+            e = rend.call_expr(st2, 14, bi2) if si2 == "t" else rend.rvalue(st2["rv"], 14)
+            break
+        # the Some must carry the same value
+        sq = ret_aggs[rb[-1]]["rv"]["fields"][0].get("c") or ret_aggs[rb[-1]]["rv"]["fields"][0].get("m")
+        if e is None:
+            problems.setdefault("loser-rule", "the loser handed to close_connection could not be traced")
+            continue
+        is_newcomer = e[0] == "var" and e[1] == role_name
+        is_bgpid = e[0] == "call" and e[1].endswith("Role::other") and any(c.endswith("PeerFsm::collision_winner") for c in expr_calls(e))
+        if S == {"Established"}:
+            if is_newcomer:
+                seen_kinds.add("established")
             else:
-                r.fail(ck.name, "established-survives", "when the other connection is Established the loser is %s, not the newcomer" % show(e, 60), ck.loc(bi))
-        else:
-            if e[0] == "call" and e[1].endswith("Role::other") and any(c.endswith("PeerFsm::collision_winner") for c in expr_calls(e)):
-                r.ok("both OpenConfirm => loser = collision_winner(role).other()")
+                problems.setdefault("established-survives", "when the other connection is Established the loser is %s, not the newcomer" % show(e, 60))
+        elif S == {"OpenConfirm"}:
+            if is_bgpid:
+                seen_kinds.add("openconfirm")
             else:
-                r.fail(ck.name, "loser-rule", "with both connections in OpenConfirm the loser is %s (want the opposite of collision_winner)" % show(e, 80), ck.loc(bi))
-    # (c) loser's slot closed on every Some(..) return
-    closes = [b for b, t in ck.calls(re.compile(r"rustybgpd::fsm::PeerFsm::close_connection"))]
-    somes = [bi for bi, si, s in ck.aggregates(None, "Some") if s["p"]["l"] == 0]
-    if closes and somes and all(ck.dominated_by_any(b, closes) for b in somes):
-        arg = rend.operand(ck.blocks[closes[0]]["t"]["args"][1], 6)
-        if "loser" in expr_vars(Renderer(ck, depth=4).operand(ck.blocks[closes[0]]["t"]["args"][1], 4)):
-            r.ok("check_collision closes the loser's slot before reporting it")
+                problems.setdefault("loser-rule", "with both connections in OpenConfirm the loser is %s (want the opposite of collision_winner)" % show(e, 80))
         else:
-            r.fail(ck.name, "close-wrong-slot", "check_collision closes %s, not the loser" % show(arg, 40), ck.loc(closes[0]))
-    else:
-        r.fail(ck.name, "loser-not-closed", "a collision is reported without closing the loser's slot", ck.loc())
+            problems.setdefault("loser-rule", "one rule (%s) decides the loser for other states %s: Established must always win, OpenConfirm is decided by the BGP identifier" % (show(e, 60), sorted(S)))
+    for key_, msg in sorted(problems.items()):
+        r.fail(ck.name, key_, msg, ck.loc())
+    if not problems:
+        if {"none", "established", "openconfirm"} <= seen_kinds:
+            r.ok("check_collision: no collision unless the other connection is in OpenConfirm/Established; Established survives; OpenConfirm vs OpenConfirm by collision_winner; loser closed before it is reported")
+        else:
+            r.unanalysable("check_collision: decision table incomplete (saw %s)" % sorted(seen_kinds), ck.loc())
     # (d) collision_winner
     cw = view(prog, prog.one(r"rustybgpd::fsm::PeerFsm::collision_winner"))
     r.analysed(cw.name)
